@@ -233,9 +233,9 @@ pub fn run(args: Args) -> ! {
         }
         rep.stats.merge(st);
     }
-    let run = run_tape("C13.types", &prop_types, 4000, args.tier.pick(20_000, 500_000), args.seed, workers());
+    let run = run_tape("C13.types", &prop_types, 4000, args.tier.pick(80_000, 1_000_000), args.seed, workers());
     finish_run(&mut rep, "types", run);
-    let run = run_tape("C13.documents", &prop_docs, 3000, args.tier.pick(30_000, 600_000), args.seed, workers());
+    let run = run_tape("C13.documents", &prop_docs, 3000, args.tier.pick(150_000, 2_000_000), args.seed, workers());
     finish_run(&mut rep, "documents", run);
     for c in ["type.Dates", "type.Nested", "has-datetime", "respelt", "document", "route-ok"] {
         rep.require_class(c);
